@@ -2,7 +2,7 @@
 (* G phase for C05: the hierarchies of HierarchyCases.tla with <= N classes, written as JSON. *)
 EXTENDS HierarchyCases, Json, IOUtils, SequencesExt
 CONSTANTS N, Full, Fifth
-Cases == UpTo(N, Full) \cup (IF Fifth THEN Part5 ELSE {})
+Cases == UpTo(N, Full) \cup (IF Fifth THEN Part5(FALSE) ELSE {})
 ASSUME JsonSerialize(IOEnv.VERIF_OUT, SetToSeq(Cases))
 ASSUME PrintT(<<"@@PRINT@@ cases", Cardinality(Cases)>>)
 VARIABLE dummy
